@@ -271,6 +271,21 @@ def check_C08(ctx, rep):
              'trigger_events before any event is processed')
     rep.rule('C08.R6', 'both counters of every machine start at zero (MachineRuntime built by Framework::new)')
     check_initial_state(ctx, rep, 'C08.R6', only={'counter_a', 'counter_b'})
+    rep.rule('C08.R7', 'what a counter specification says is what its constructor was asked for: Counter::new(op) = {op, no dist, copy false}, '
+             'new_dist(op, d) = {op, Some(d), copy false}, new_copy(op) = {op, no dist, copy true}')
+    want = {'new': ('None', 0), 'new_dist': ('Some', 0), 'new_copy': ('None', 1)}
+    for cname, (dv, cp) in want.items():
+        cf = prog.fn_opt(FW, 'Counter', cname)
+        if cf is None:
+            rep.fail_closed('C08.R7', 'Counter::' + cname)
+            continue
+        rv = [v for (b, k, v) in ret_defs(an.get(cf))]
+        ok = len(rv) == 1 and rv[0][0] == 'agg' and rv[0][1].endswith('Counter')
+        if ok:
+            d = dict(rv[0][3])
+            ok = d.get('operation') == ('param', 1) and isinstance(d.get('dist'), tuple) and d['dist'][0] == 'agg' and d['dist'][2] == dv and \
+                (dv == 'None' or dict(d['dist'][3]).get('0') == ('param', 2)) and num(d.get('copy')) == cp
+        rep.ob('C08.R7', cf, 'constructor:' + cname, ok, 'returns %s' % (shape(rv[0])[:90] if rv else '?'))
     rep.rule('C08.R5', 'order: in transition update_counter runs before schedule_action and the schedule permission is '
              'actions[mi].is_none() evaluated after the recursive CounterZero transition; without recursion it is (true, false)')
     for name, fn in F.items():
